@@ -77,6 +77,12 @@ def gen_tree(rng, depth):
         kids = [sub()] + [ms() for _ in range(2 * k)]
         if rng.random() < 0.5:
             kids += [N("mprescripts")] + [ms() for _ in range(2 * rng.randrange(0, 2))]
+        if rng.random() < 0.3:      # unpaired scripts on either side of <mprescripts/>
+            pos = rng.randrange(1, len(kids) + 1)
+            if rng.random() < 0.5 and len(kids) > 1 and kids[pos - 1].tag != "mprescripts":
+                del kids[pos - 1]
+            else:
+                kids.insert(pos, ms())
         return N("mmultiscripts", kids)
     if r < 0.72:
         a = {}
@@ -91,7 +97,9 @@ def gen_tree(rng, depth):
     if r < 0.82:
         return N("menclose", [sub()], attrs={"notation": rng.choice(["box", "updiagonalstrike", "radical", "top"])})
     if r < 0.86:
-        return N("semantics", [sub(), N("annotation", text="\\TeX{} x+y", attrs={"encoding": "application/x-tex"})] + ([N("annotation-xml", [N("ci", text="x")], attrs={"encoding": "MathML-Content"})] if rng.random() < 0.4 else []))
+        enc = lambda: rng.choice(["application/x-tex", "MathML-Content", "application/mathml-content+xml", "text/x-tex; charset=utf-8", "a b", "é", "x=1", "", "application/x-llamapun"])
+        return N("semantics", [sub(), N("annotation", text=rng.choice(["\\TeX{} x+y", "f'(x)", "a\tb", "x \"y\" <z>"]), attrs={"encoding": enc()})] +
+                 ([N("annotation-xml", [N("apply", [N("plus"), N("ci", text="x"), N("cn", text="1")])], attrs={"encoding": enc()})] if rng.random() < 0.4 else []))
     if r < 0.90:
         rows, cols = rng.randrange(1, 3), rng.randrange(1, 3)
         return N("mtable", [N("mtr", [N("mtd", [sub() for _ in range(rng.choice([1, 1, 0, 2]))]) for _ in range(cols)]) for _ in range(rows)])
